@@ -46,3 +46,21 @@ META["C08"] = dict(
     level_note=("Trusted: runtime.MemStats after GC as the retained-memory measure; per-format bounds derived from the decoders' documented caps; "
                 "one open known finding (tiny fragments) is excluded by construction for the nine decoders it affects."),
 )
+
+META["C09"] = dict(
+    design_ref="DESIGN.md section 4, C09",
+    technique="property-based round-trip testing (rapid) of generated header values, repeated-parse metamorphic check for map-order independence, dense numeric sweep of NPT values; native go fuzzing of every Unmarshal in the thorough tier",
+    level_text=("Exploration: generated values per header grammar for the round trip and Marshal purity; every generated string parsed 40 times in "
+                "fresh values so that map-iteration dependence shows up as two different outcomes; a dense millisecond sweep for the float path. "
+                "Sampled, not exhaustive, except the 0..10^7 ms NPT sweep of the thorough tier."),
+    level_note=("Trusted: the value grammars (restrictions are those of the header syntax); reflect.DeepEqual / time.Equal as equality; one open known "
+                "finding (NPT >= 2^22 s with milliseconds) excluded by construction and counted."),
+)
+
+META["C10"] = dict(
+    design_ref="DESIGN.md section 4, C10",
+    technique="property-based testing (rapid): Sender/Verify matrix over generated credentials, challenges and single-field perturbations; end-to-end 401 / connection-fate cases against a live server",
+    level_text=("Exploration: the completeness half (right credentials accepted for every challenge the server can issue) and the soundness half "
+                "(any single differing field rejected) over generated inputs; the documented SETUP relaxation is the only accepted URL mismatch."),
+    level_note="Trusted: MD5/SHA-256 of the standard library inside the code under test; the perturbation table in DESIGN.md (which fields bind which scheme).",
+)
